@@ -179,7 +179,8 @@ def draw_containers(data, tier):
     if kind in ('mps', 'mpo'):
         fam = G.draw_family(data, tier)
         N = data.draw(st.sampled_from([3, 2, 4]))
-        d.update({'fam': fam, 'N': N, 'obj': G.draw_state_desc(data, fam, N, tier) if kind == 'mps' else G.draw_mpo_desc(data, fam, N, tier)})
+        d.update({'fam': fam, 'N': N, 'obj': G.draw_state_desc(data, fam, N, tier) if kind == 'mps' else G.draw_mpo_desc(data, fam, N, tier),
+                  'central': data.draw(st.sampled_from([None, 'first', 'last', None])), 'csite': data.draw(st.integers(0, N - 1))})
     else:
         d.update({'geom': data.draw(st.sampled_from([{'cls': 'square', 'dims': [2, 2], 'boundary': 'obc'}, {'cls': 'square', 'dims': [2, 2], 'boundary': 'infinite'},
                                                      {'cls': 'checker'}, {'cls': 'square', 'dims': [1, 3], 'boundary': 'obc'}, {'cls': 'square', 'dims': [2, 3], 'boundary': 'obc'}])),
@@ -248,6 +249,9 @@ def build_container(desc):
         out = build(desc['obj'], desc['fam'], desc['N'])
         if out is None:
             raise Reject('zero_random_state')
+        if desc.get('central') is not None:       # a central block is stored under a tuple key next to the site tensors
+            out = out.shallow_copy()
+            out.orthogonalize_site_(desc['csite'], to=desc['central'], normalize=False)
         return out
     pd = {'geom': desc['geom'], 'sym': desc['sym'], 'fermionic': desc['fermionic'], 'seed': desc['seed'], 'dtype': desc['dtype'], 'D': desc['D']}
     config, g, psi = c17.build_peps(pd)
